@@ -39,6 +39,7 @@ void ref_print (FILE * f, const RefLP * L);
 typedef struct { char *s; size_t len, cap; } SBuf;
 void sb_init (SBuf * b);
 void sb_free (SBuf * b);
+void sb_reserve (SBuf * b, size_t n);
 void sb_printf (SBuf * b, const char *fmt, ...) __attribute__ ((format (printf, 2, 3)));
 void sb_mpq (SBuf * b, const mpq_t q);
 void ref_dump (SBuf * b, const RefLP * L, int with_names);
